@@ -340,3 +340,90 @@ func (c *Case) hbFeatures() []harfbuzz.Feature {
 	}
 	return out
 }
+
+// ---- systematic sweep: every (letter, mark) pair of every script alphabet, both
+// orders, 4 directions, 3 cluster levels (buffer level) + shaping level, on a
+// face that covers the script (when the corpus has one) and on a fixed face.
+
+type sweepItem struct {
+	alphabet int
+	mark     rune
+}
+
+var (
+	sweepOnce  sync.Once
+	sweepItems []sweepItem
+	sweepFaces map[int]string // alphabet -> covering face reference
+)
+
+func sweepInit(faces []corpus.FaceRef) {
+	sweepOnce.Do(func() {
+		for ai, a := range gen.Alphabets {
+			seen := map[rune]bool{}
+			for _, m := range a.Marks {
+				if !seen[m] {
+					seen[m] = true
+					sweepItems = append(sweepItems, sweepItem{ai, m})
+				}
+			}
+		}
+		sweepFaces = map[int]string{}
+		for ai, a := range gen.Alphabets {
+			for _, ref := range faces {
+				ft := ref.Font()
+				n := 0
+				for k := 0; k < len(a.Letters) && k < 6; k++ {
+					if _, ok := ft.NominalGlyph(a.Letters[k]); ok {
+						n++
+					}
+				}
+				if n >= 3 {
+					sweepFaces[ai] = ref.String()
+					break
+				}
+			}
+		}
+	})
+}
+
+const sweepVariants = 2 * 4 * 4 * 2 // order x direction x api/cluster level x face
+
+// SweepSize is the number of sweep cases.
+func SweepSize(faces []corpus.FaceRef) int {
+	sweepInit(faces)
+	return len(sweepItems) * sweepVariants
+}
+
+// SweepCase builds sweep case k.
+func SweepCase(k int, faces []corpus.FaceRef) *Case {
+	sweepInit(faces)
+	it := sweepItems[k/sweepVariants]
+	v := k % sweepVariants
+	order, v := v%2, v/2
+	dir, v := v%4, v/4
+	api, v := v%4, v/4
+	facesel := v % 2
+	a := gen.Alphabets[it.alphabet]
+	l1 := a.Letters[(k/sweepVariants)%len(a.Letters)]
+	l2 := a.Letters[(k/sweepVariants*7+3)%len(a.Letters)]
+	var text []rune
+	if order == 0 {
+		text = []rune{l1, it.mark, l2}
+	} else {
+		text = []rune{it.mark, l1, l2, it.mark}
+	}
+	c := &Case{Text: text, RunStart: 0, RunEnd: len(text), Dir: uint8(allDirs[dir]), Size: 16 << 6, Source: "pair-sweep"}
+	c.Script = uint32(guessScript(text))
+	c.Face = faces[0].String()
+	if f, ok := sweepFaces[it.alphabet]; ok && facesel == 0 {
+		c.Face = f
+	} else if ref, ok := corpus.ParseRef("sys/DejaVuSans.ttf#0"); ok {
+		c.Face = ref.String()
+	}
+	if api > 0 {
+		c.Buffer = true
+		c.ClusterLevel = uint8(api - 1)
+		c.Flags = 3 // BOT | EOT
+	}
+	return c
+}
